@@ -15,6 +15,7 @@ search      Python-side oracle (no Lean): identity <=> structural equality over 
             held handles, arrays by identity, plus "nothing survives drop-all + gc".
 """
 import ast
+import copy
 import gc
 import itertools
 import math
@@ -146,8 +147,16 @@ def _source_forms():
         forms["opCallForm"] = flat(call)
         forms["reshapeHashForm"] = flat(_find_def(t_arr, ["ReshapeMeta", "hash_args_kwargs"]))
         forms["getsliceHashForm"] = flat(_find_def(t_bi, ["GetsliceMeta", "hash_args_kwargs"]))
+        forms["opReduceForm"] = flat(_find_def(t_op, ["Op", "__reduce__"]))
+        forms["opDeepcopyForm"] = flat(_find_def(t_op, ["Op", "__deepcopy__"]))
+        t_dom = ast.parse((REPO / "funsor" / "domains.py").read_text())
+        forms["domainReduceForm"] = flat(_find_def(t_dom, ["_pickle_array"]))
+        forms["domainCopyregForm"] = " ;; ".join(sorted(
+            " ".join(ast.unparse(n).split()) for n in t_dom.body
+            if isinstance(n, ast.Expr) and "copyreg.pickle" in ast.unparse(n)))
     except (OSError, SyntaxError):
-        for k in ("opHashForm", "opCallForm", "reshapeHashForm", "getsliceHashForm"):
+        for k in ("opHashForm", "opCallForm", "reshapeHashForm", "getsliceHashForm", "opReduceForm",
+                  "opDeepcopyForm", "domainReduceForm", "domainCopyregForm"):
             forms.setdefault(k, "MISSING")
     return forms
 
@@ -333,7 +342,7 @@ INTERPS = {"reflect": reflect, "lazy": lazy, "eager": eager}
 
 class Recipe:
     def __init__(self, name, cls, args, needs=(), interps=("reflect", "lazy", "eager"), expr=None, mcls=None,
-                 cyc=False, pk=(), ri=(), core=False, dyn=False):
+                 cyc=False, pk=(), ri=(), core=False, dyn=False, blob=False):
         self.name = name
         self.cls = cls            # table name
         self.args = args          # python source of the tuple of user-level args (for the model + the call)
@@ -346,9 +355,11 @@ class Recipe:
         self.ri = tuple(ri)       # interpretations under which reinterpret is exercised
         self.core = core          # member of the exhaustively enumerated alphabet
         self.dyn = dyn            # dynamic domain (not pinned)
+        self.blob = blob          # leaf recipe whose pickle blob may be loaded after the original is gone
 
 
 T = "funsor.terms."
+D = "funsor.domains.ArrayType"
 
 
 def _op_recipes():
@@ -373,6 +384,7 @@ def _op_recipes():
                       ("dflt", "(None, False)", f"ops.{cls}()")]
         for suf, args, expr in forms:
             out.append(Recipe(f"{nm}_{suf}", c, args, expr=expr, mcls="OpMeta", dyn=True,
+                              blob=suf in ("m1", "m2", "1f"),
                               core=(nm == "sum" and suf in ("m1", "m2")),
                               pk=("reflect",) if suf in ("m1", "m2") else ()))
         for suf in ("m1", "m2"):
@@ -394,12 +406,12 @@ def _op_recipes():
 
 OP_RECIPES = []
 RECIPES = [
-    Recipe("x", T + "Variable", "('x', Real)", core=True, pk=("reflect", "lazy", "eager"), ri=("reflect",)),
+    Recipe("x", T + "Variable", "('x', Real)", core=True, blob=True, pk=("reflect", "lazy", "eager"), ri=("reflect",)),
     Recipe("xb", T + "Variable", "('x', Bint[2])"),
     Recipe("i", T + "Variable", "('i', Bint[2])"),
     Recipe("ib", T + "Variable", "('i__BOUND_9', Bint[2])"),
     Recipe("y", T + "Variable", "('y', Reals[3])"),
-    Recipe("n1", T + "Number", "(1,)", core=True, pk=("eager",)),
+    Recipe("n1", T + "Number", "(1,)", core=True, pk=("eager",), blob=True),
     Recipe("n1f", T + "Number", "(1.0,)", core=True),
     Recipe("n1t", T + "Number", "(True, 'real')"),
     Recipe("n1n", T + "Number", "(1, None)"),
@@ -440,12 +452,13 @@ RECIPES = [
            interps=("reflect", "lazy"), pk=("reflect", "lazy"), ri=("reflect",)),
     Recipe("lam", T + "Lambda", "(H['ib'], H['body'])", needs=("ib", "body"), interps=("reflect", "lazy"),
            pk=("reflect",)),
-    Recipe("sl", T + "Slice", "('s', 4)", pk=("eager",)),
+    Recipe("sl", T + "Slice", "('s', 4)", pk=("eager",), blob=True),
     Recipe("sl2", T + "Slice", "('s', 0, 4, 1, 4)"),
     Recipe("sl3", T + "Slice", "('s', 0, 9, 1, 4)"),
     Recipe("sl4", T + "Slice", "('s', 0, 4, 2, 4)"),
     # interned domains (one shared table ArrayType._type_cache) and parametrised ops
     Recipe("d5", "funsor.domains.ArrayType", "(5,)", expr="Bint[5]", mcls="Bint", cyc=True, core=True, dyn=True,
+           blob=True,
            pk=("reflect",)),
     Recipe("d5a", "funsor.domains.ArrayType", "(5, ())", expr="Array[5, ()]", mcls="Array", cyc=True, dyn=True),
     Recipe("r5", "funsor.domains.ArrayType", "(5,)", expr="Reals[5]", mcls="Reals", cyc=True, dyn=True),
@@ -457,13 +470,41 @@ RECIPES = [
     Recipe("pd", "funsor.domains.ProductDomain", "(Real, H['d5'])", expr="Product[Real, H['d5']]",
            mcls="Product", needs=("d5",), cyc=True, dyn=True),
     Recipe("g1", "funsor.ops.GetitemOp", "(1,)", expr="ops.GetitemOp(1)", mcls="OpMeta", core=True,
-           dyn=True, pk=("reflect",)),
+           dyn=True, blob=True, pk=("reflect",)),
     Recipe("g1k", "funsor.ops.GetitemOp", "(1,)", expr="ops.GetitemOp(offset=1)", mcls="OpMeta", dyn=True),
     Recipe("g2", "funsor.ops.GetitemOp", "(2,)", expr="ops.GetitemOp(2)", mcls="OpMeta", dyn=True),
     Recipe("g0", "funsor.ops.GetitemOp", "(0,)", expr="ops.GetitemOp(0)", mcls="OpMeta"),
     Recipe("gm1", "funsor.ops.GetitemOp", "(-1,)", expr="ops.GetitemOp(-1)", mcls="OpMeta", dyn=True),
     Recipe("gm2", "funsor.ops.GetitemOp", "(-2,)", expr="ops.GetitemOp(offset=-2)", mcls="OpMeta", dyn=True),
     Recipe("x3", T + "Variable", "('x3', Reals[2, 3, 4])", core=True),
+    # (Bint[2,3] itself is the output domain of `b`, hence pinned: the dynamic shaped domain is Bint[2,5])
+    # shaped bounded-integer domains (size-1 axes included), Reals of rank 0..3, products, terms over them
+    Recipe("bs23", D, "((2, 5),)", expr="Bint[2, 5]", mcls="Bint", cyc=True, dyn=True, core=True,
+           pk=("reflect",), blob=True),
+    Recipe("bs23a", D, "(2, (5,))", expr="Array[2, (5,)]", mcls="Array", cyc=True, dyn=True, pk=("reflect",)),
+    Recipe("bs51", D, "((5, 1),)", expr="Bint[5, 1]", mcls="Bint", cyc=True, dyn=True, pk=("reflect",), blob=True),
+    Recipe("bs213", D, "((2, 1, 3),)", expr="Bint[2, 1, 3]", mcls="Bint", cyc=True, dyn=True, pk=("reflect",),
+           blob=True),
+    Recipe("bs13", D, "((1, 3),)", expr="Bint[1, 3]", mcls="Bint", cyc=True, dyn=True, pk=("reflect",), blob=True),
+    Recipe("bs7", D, "(7,)", expr="Bint[7]", mcls="Bint", cyc=True, dyn=True, pk=("reflect",), blob=True),
+    Recipe("r0", D, "()", expr="Reals[()]", mcls="Reals", cyc=True, pk=("reflect",), blob=True),
+    Recipe("r7", D, "(7,)", expr="Reals[7]", mcls="Reals", cyc=True, dyn=True, pk=("reflect",), blob=True),
+    Recipe("r71", D, "(7, 1)", expr="Reals[7, 1]", mcls="Reals", cyc=True, dyn=True, pk=("reflect",), blob=True),
+    Recipe("r512", D, "(5, 1, 2)", expr="Reals[5, 1, 2]", mcls="Reals", cyc=True, dyn=True, pk=("reflect",),
+           blob=True),
+    Recipe("pd2", "funsor.domains.ProductDomain", "(H['bs23'], Real)", expr="Product[H['bs23'], Real]",
+           mcls="Product", needs=("bs23",), cyc=True, dyn=True),
+    Recipe("vbs23", T + "Variable", "('xs', H['bs23'])", needs=("bs23",), core=True,
+           pk=("reflect", "lazy", "eager"), ri=("reflect",)),
+    Recipe("vbs51", T + "Variable", "('xs', H['bs51'])", needs=("bs51",), pk=("reflect", "eager")),
+    Recipe("vbs213", T + "Variable", "('xs', H['bs213'])", needs=("bs213",), pk=("lazy",)),
+    Recipe("vr512", T + "Variable", "('xs', H['r512'])", needs=("r512",), pk=("reflect", "eager")),
+    Recipe("tvb", T + "Tuple", "((H['vbs23'], H['x']),)", needs=("vbs23", "x"), pk=("reflect", "lazy")),
+    Recipe("t0d2", "funsor.tensor.Tensor", "(A[0], (), 2)", needs=("A0",), interps=("reflect", "lazy"),
+           pk=("reflect",)),
+    Recipe("zb", T + "Variable", "('zb', Bint[3])", blob=True, pk=("reflect",)),
+    Recipe("lamz", T + "Lambda", "(H['ib'], H['zb'])", needs=("ib", "zb"), pk=("reflect", "lazy", "eager"),
+           ri=("reflect",)),
 ]
 OP_RECIPES.extend(_op_recipes())
 RECIPES = RECIPES + OP_RECIPES
@@ -513,6 +554,7 @@ class World:
         self.H = {}
         self.A = {}
         self.P = None
+        self.B = {}                # recipe name -> (pickle bytes, model tokens, class index, cyc, mcls)
         self.pinned = []           # [(slot, table name, mcls, args tuple, obj)]
         self.tables = {}           # table name -> dict object
         import importlib
@@ -630,8 +672,10 @@ def enabled(step, held):
     kind = step[0]
     if kind == "mk":
         return all(n in held for n in RBY[step[1]].needs)
-    if kind in ("drop", "pk", "ri"):
+    if kind in ("drop", "pk", "ri", "cp", "dc", "dumps"):
         return step[1] in held
+    if kind == "loads":
+        return ("B:" + step[1]) in held
     if kind == "dropP":
         return "P" in held
     return True
@@ -644,20 +688,29 @@ def apply_sym(step, held):
         held.add(step[1])
     elif kind == "drop":
         held.discard(step[1])
-    elif kind in ("pk", "ri"):
+    elif kind in ("pk", "ri", "cp", "dc", "loads"):
         held.add("P")
+    elif kind == "dumps":
+        held.add("B:" + step[1])
     elif kind == "dropP":
         held.discard("P")
     return frozenset(held)
 
 
-def alphabet(recipes):
+def alphabet(recipes, full=False):
+    """`full`: also copy / deepcopy and 'dump the pickle, (drop, gc,) load it later' — random stream only."""
     al = []
     for r in recipes:
         al.append(("mk", r.name, None))
         al.append(("drop", r.name))
         if r.pk:
             al.append(("pk", r.name, None))
+            if full:
+                al.append(("cp", r.name, None))
+                al.append(("dc", r.name, None))
+        if full and r.blob:
+            al.append(("dumps", r.name))
+            al.append(("loads", r.name, None))
         if r.ri:
             al.append(("ri", r.name, None))
     al += [("arr", 0), ("arr", 1), ("gc",), ("dropP",)]
@@ -685,10 +738,11 @@ def enumerate_histories(depth, recipes):
 
 
 def random_history(rng, length, recipes):
-    al = alphabet(recipes)
+    al = alphabet(recipes, full=True)
     held = frozenset(ARR_SLOTS)
     hist = []
-    weights = {"mk": 6, "drop": 2, "pk": 2, "ri": 1, "arr": 1, "gc": 1, "dropP": 1}
+    weights = {"mk": 6, "drop": 2, "pk": 2, "ri": 1, "arr": 1, "gc": 1, "dropP": 1, "cp": 1, "dc": 1,
+               "dumps": 2, "loads": 4}
     for _ in range(length):
         en = [s for s in al if enabled(s, held)]
         # favour composite constructions (their arguments are held right now), so deep terms get built
@@ -709,6 +763,12 @@ def fill_interps(hist, rng):
             out.append(("pk", st[1], st[2] or rng.choice(RBY[st[1]].pk)))
         elif st[0] == "ri":
             out.append(("ri", st[1], st[2] or rng.choice(RBY[st[1]].ri)))
+        elif st[0] == "dc":
+            out.append(("dc", st[1], st[2] or rng.choice(RBY[st[1]].pk)))
+        elif st[0] == "cp":
+            out.append(("cp", st[1], st[2] or "reflect"))
+        elif st[0] == "loads":
+            out.append(("loads", st[1], st[2] or rng.choice(RBY[st[1]].pk or ("reflect",))))
         else:
             out.append(st)
     return out
@@ -838,12 +898,36 @@ class Run:
         elif kind == "gc":
             full_collect()
             self.req.append(["gc"])
-        elif kind in ("pk", "ri"):
+        elif kind == "dumps":
+            r = RBY[sym[1]]
+            toks = []
+            for a in w.args_of(r):
+                enc(a, w.ids, toks)
+            w.B[r.name] = (pickle.dumps(w.H[r.name]), toks, w.cls_index[r.cls], r.cyc,
+                           r.mcls or w.cls_mcls[r.cls])
+        elif kind == "loads":
+            # unpickling when the original may be long gone: the reducer's constructor call, from scratch
+            blob, toks, ci, cyc, mcls = w.B[sym[1]]
+            w.P = None
+            with INTERPS[sym[2]]:
+                new = pickle.loads(blob)
+            self.req.append(["drop", SLOT_P])
+            self.req.append(["sweep"])
+            self.req.append(["mk", SLOT_P, ci, cyc, Q(mcls), toks, w.ids(new)])
+            self.req.append(["sweep"])
+            w.P = new
+            self.tracked.append((self.nobs, SLOT_P, weakref.ref(new)))
+            del new
+        elif kind in ("pk", "ri", "cp", "dc"):
             src = w.H[sym[1]]
             w.P = None
             with INTERPS[sym[2]]:
                 if kind == "pk":
                     new = pickle.loads(pickle.dumps(src))
+                elif kind == "cp":
+                    new = copy.copy(src)
+                elif kind == "dc":
+                    new = copy.deepcopy(src)
                 else:
                     new = reinterpret(src)
             objmap, arrmap, newarrs = {}, {}, {}
@@ -871,6 +955,7 @@ class Run:
         w = self.w
         w.H.clear()
         w.P = None
+        w.B.clear()
         w.A.clear()
         full_collect()
 
@@ -1024,7 +1109,7 @@ def oracle_violation(w, expect_same):
 
 ALIASES = [("n1", "n1f"), ("n1", "n1t"), ("n1", "n1n"), ("nz", "nnz"), ("n1b3", "n1b3f"), ("t0", "t0t"),
            ("t0n", "t0nn"), ("sl", "sl2"), ("sl", "sl3"), ("d5", "d5a"), ("r5", "r5a"),
-           ("g1", "g1k"), ("sum_m1", "sum_m1k"), ("sum_m2", "sum_m2k"), ("sum_1", "sum_1f"), ("sum_1", "sum_1t"),
+           ("g1", "g1k"), ("bs23", "bs23a"), ("sum_m1", "sum_m1k"), ("sum_m2", "sum_m2k"), ("sum_1", "sum_1f"), ("sum_1", "sum_1t"),
            ("sum_1", "sum_1z"), ("sum_0", "sum_0f"), ("sum_0", "sum_0n"), ("sum_m1kd", "sum_m1kd1"),
            ("amax_m2", "amax_m2k"), ("prod_m2", "prod_m2k"), ("argmax_m2", "argmax_m2k"), ("rs_23", "rs_23f"),
            ("unsq_0", "unsq_0f")]
@@ -1034,7 +1119,8 @@ DISTINCT = [("n1", "n1b3"), ("x", "xb"), ("t0", "t0b"), ("t0", "t0n"), ("sl", "s
             ("usum_m1", "usum_m2"), ("uamax_m1", "uamax_m2"), ("uprod_m1", "uprod_m2"),
             ("uargmax_m1", "uargmax_m2"), ("unsq_m1", "unsq_m2"), ("stk_m1", "stk_m2"), ("rs_m1", "rs_m2"),
             ("gm1", "gm2"), ("rs_23", "rs_32"), ("sum_m1", "sum_m1kd"), ("sum_m2", "sum_m3"), ("sum_1", "sum_0"),
-            ("sum_m1", "amax_m1")]
+            ("sum_m1", "amax_m1"), ("bs23", "bs7"), ("bs51", "d5"), ("bs213", "bs23"), ("r7", "r71"),
+            ("r7", "bs7"), ("vbs51", "v5")]
 VALUE_REF = {"usum": np.sum, "uamax": np.amax, "uprod": np.prod, "uargmax": np.argmax}
 VALUE_DATA = np.arange(24, dtype=np.float64).reshape(2, 3, 4) / 7.0
 
@@ -1089,17 +1175,31 @@ def run_py_oracle(w, hist, rng):
                 arr_gen[sym[1]] += 1
             elif kind == "gc":
                 full_collect()
-            elif kind in ("pk", "ri"):
+            elif kind == "dumps":
+                w.B[sym[1]] = pickle.dumps(w.H[sym[1]])
+            elif kind == "loads":
+                r = RBY[sym[1]]
+                with INTERPS[sym[2]]:
+                    new = pickle.loads(w.B[sym[1]])
+                ref = w.build(r, "reflect")      # the object built (again) from the recipe's own arguments
+                if new is not ref:
+                    return (f"step {n}: unpickling {r.expr or r.name} gave {new!r}, not the object its "
+                            f"constructor arguments denote ({ref!r})")
+                w.P = new
+                del new, ref
+            elif kind in ("pk", "ri", "cp", "dc"):
                 src = w.H[sym[1]]
                 with INTERPS[sym[2]]:
-                    new = pickle.loads(pickle.dumps(src)) if kind == "pk" else reinterpret(src)
+                    new = (pickle.loads(pickle.dumps(src)) if kind == "pk" else copy.copy(src) if kind == "cp"
+                           else copy.deepcopy(src) if kind == "dc" else reinterpret(src))
                 has_arr = any(isinstance(o, Tensor) for o in reachable([src]))
-                if kind == "ri" and new is not src:
-                    return f"step {n}: reinterpret({sym[1]}) under {sym[2]} is a different object"
-                if kind == "pk" and not has_arr and new is not src:
-                    return f"step {n}: pickle round trip of array-free {sym[1]} under {sym[2]} is a different object"
-                if kind == "pk" and has_arr and new is src:
-                    return f"step {n}: pickle round trip of {sym[1]} (arrays are copied) returned the same object"
+                if kind in ("ri", "cp") and new is not src:
+                    return f"step {n}: {kind}({sym[1]}) under {sym[2]} is a different object"
+                if kind in ("pk", "dc") and not has_arr and new is not src:
+                    return (f"step {n}: {'pickle round trip' if kind == 'pk' else 'deepcopy'} of array-free "
+                            f"{sym[1]} under {sym[2]} is a different object: {new!r} vs {src!r}")
+                if kind in ("pk", "dc") and has_arr and new is src:
+                    return f"step {n}: {kind} of {sym[1]} (arrays are copied) returned the same object"
                 w.P = new
                 del src, new
             v = oracle_violation(w, ALIASES)
@@ -1127,6 +1227,7 @@ def run_py_oracle(w, hist, rng):
     finally:
         w.H.clear()
         w.P = None
+        w.B.clear()
         w.A.clear()
         full_collect()
 
@@ -1137,7 +1238,7 @@ def run_py_oracle(w, hist, rng):
 
 def python_snippet(hist, note):
     lines = ["# replay for C07: " + note.replace("\n", " "),
-             "import gc, math, pickle, weakref",
+             "import copy, gc, math, pickle, weakref",
              "import numpy as np",
              "from collections import OrderedDict",
              "import funsor, funsor.ops as ops",
@@ -1149,7 +1250,7 @@ def python_snippet(hist, note):
              "funsor.set_backend('numpy')",
              "NAN = math.nan",
              "A = {0: np.arange(6.).reshape(2, 3), 1: np.arange(6.).reshape(2, 3) + 1}",
-             "H = {}; P = None; log = []"]
+             "H = {}; P = None; B = {}; log = []"]
     for n, sym in enumerate(hist):
         kind = sym[0]
         if kind == "mk":
@@ -1168,6 +1269,14 @@ def python_snippet(hist, note):
             lines.append(f"with {sym[2]}: P = pickle.loads(pickle.dumps(H[{sym[1]!r}]))")
         elif kind == "ri":
             lines.append(f"with {sym[2]}: P = reinterpret(H[{sym[1]!r}])")
+        elif kind == "cp":
+            lines.append(f"with {sym[2]}: P = copy.copy(H[{sym[1]!r}])")
+        elif kind == "dc":
+            lines.append(f"with {sym[2]}: P = copy.deepcopy(H[{sym[1]!r}])")
+        elif kind == "dumps":
+            lines.append(f"B[{sym[1]!r}] = pickle.dumps(H[{sym[1]!r}])")
+        elif kind == "loads":
+            lines.append(f"with {sym[2]}: P = pickle.loads(B[{sym[1]!r}])")
     return "\n".join(lines) + "\n"
 
 
@@ -1334,7 +1443,7 @@ def run_batch(ctx, w, hists, label):
                      python=python_snippet(hist[:k], note) +
                      f"print({note!r})\nFAILS = True  # re-run with ./check C07 --replay for the model comparison\n")
             continue
-        nontrivial = len({s[1] for s in hist if s[0] == "mk"}) >= 2 or any(s[0] in ("pk", "ri", "arr") for s in hist)
+        nontrivial = len({s[1] for s in hist if s[0] == "mk"}) >= 2 or any(s[0] in ("pk", "ri", "arr", "cp", "dc", "loads") for s in hist)
         ctx.case(sample={"stream": label, "history": sym_json(hist)},
                  nontrivial_key=("h", tuple(hist)) if nontrivial else None)
     recycling_stats(ctx, w, runs)
